@@ -19,7 +19,7 @@ TYPES = {
 }
 CONTEXTS = ["stmt", "if", "else", "for", "while", "with", "try", "finally", "listcomp", "genexp", "dictlit", "fstring", "ifexp",
             "boolop", "kwarg", "star", "subscript", "augassign", "annassign", "walrus", "assert", "multiline", "nested_def", "tuple",
-            "lambda_param", "except_as", "nested_def_param"]
+            "lambda_param", "except_as", "nested_def_param", "match_capture"]
 IMPORT_FORMS = ["from", "alias", "attr", "import_as", "import_full", "relative", "star", "reexport"]
 
 ENTRIES = {
